@@ -61,6 +61,8 @@ class Effects:
         self._in_progress = set()
         self._local_types_cache = {}
         self.unresolved = {}     # func key -> list of call text
+        self.unique_names = True
+        self._owner_cache = None
 
     # ------------------------------------------------------------------
     def exc_is_a(self, name, base):
@@ -188,7 +190,21 @@ class Effects:
             if recv.id in ltypes:
                 return self._method_on(ltypes[recv.id], meth,
                                        include_overrides=True)
+        # method name defined by exactly one class in the repository
+        if self.unique_names:
+            owners = self._owners(meth)
+            if len(owners) == 1:
+                cls = owners[0]
+                return [FuncRef(cls.module, cls, cls.methods[meth])], True
         return [], False
+
+    def _owners(self, meth):
+        if self._owner_cache is None:
+            self._owner_cache = {}
+            for cls in self.idx.classes.values():
+                for name in cls.methods:
+                    self._owner_cache.setdefault(name, []).append(cls)
+        return self._owner_cache.get(meth, [])
 
     def _method_on(self, cls, meth, include_overrides=False):
         idx = self.idx
